@@ -145,6 +145,18 @@ Theorem C20_lit_parse_eq_rfc : forall body r f name t data, wf_bytes body ->
   lit_parse (Z.of_nat (length body)) (body ++ r) = Some ({| l_format := f; l_name := name; l_mtime := t; l_data := data |}, r).
 Proof. exact lit_parse_eq_rfc. Qed.
 Print Assumptions C20_lit_parse_eq_rfc.
+(* ... and accepts nothing else: an accepted body is one the RFC decoder accepts, with the same fields, and the octets after the
+   declared length are not touched (a literal packet cannot read its name, date or data out of the packets that follow it) *)
+Theorem C20_lit_parse_only_rfc : forall body r l r', wf_bytes body -> wf_bytes r ->
+  lit_parse (Z.of_nat (length body)) (body ++ r) = Some (l, r') ->
+  rfc_lit_dec body = Some (l_format l, l_name l, l_mtime l, l_data l) /\ r' = r.
+Proof. exact lit_parse_only_rfc. Qed.
+Print Assumptions C20_lit_parse_only_rfc.
+(* the premise is met, and the body that used to swallow what follows (name length 255 in six octets) is refused *)
+Example C20_lit_parse_only_rfc_premises :
+  lit_parse 8 ([98; 2; 97; 98; 0; 0; 0; 1] ++ [202; 3]) = Some ({| l_format := 98; l_name := [97; 98]; l_mtime := 1; l_data := [] |}, [202; 3])
+  /\ lit_parse 6 ([98; 255; 0; 0; 0; 0] ++ [202; 3; 80; 71; 80]) = None.
+Proof. split; vm_compute; reflexivity. Qed.
 (* what is emitted is what the RFC decoder reads *)
 Theorem C20_lit_body_rfc : forall l b, lit_body l = Some b ->
   rfc_lit_dec b = Some (l_format l, l_name l, l_mtime l, l_data l).
